@@ -425,7 +425,9 @@ func shrinkHang(e Engine, c *Case, sp *Spec, dir string) (*Case, int) {
 // digest folds everything a run observed into one number.
 func digest(o *Outcome) uint64 {
 	h := mixHash(uint64(o.Evals), uint64(o.Decisions), uint64(len(o.Viol)), uint64(len(o.Distinct)))
-	for _, d := range o.Distinct {
+	ds := append([]uint64(nil), o.Distinct...)
+	sort.Slice(ds, func(i, j int) bool { return ds[i] < ds[j] })
+	for _, d := range ds {
 		h = mixHash(h, d)
 	}
 	for _, d := range o.Interleaved {
